@@ -190,4 +190,5 @@ VARIANTS = [
     V("mixing-from-betas-only", "src/leaspy/models/time_reparametrized.py", "                    MatMul(\"orthonormal_basis\", \"betas\").then(torch.t)", "                    MatMul(\"betas\", \"betas\").then(torch.t)", "C10.R3"),
     V("rt-without-alpha", "src/leaspy/models/time_reparametrized.py", "        return alpha * (t - tau)\n", "        return t - tau\n", "C10.R2"),
     V("silent-put-accumulate", RM, "        state[\"log_v0\"] = state[\"log_v0\"] + mean_xi\n", "        state.put(\"log_v0\", mean_xi, accumulate=True)\n", None),
+    V("silent-rename-mean", RM, "mean_xi", "m", None, count=3),
 ]
